@@ -17,7 +17,7 @@ def all_domains():
 # which property a failing judgement belongs to (the codes partition all failures)
 def attribute(why, step):
     op = step["op"]
-    if why in ("other-register-changed", "stutter-changed-meaning", "differs-from-paired-replay") or op == "copy":
+    if why in ("other-register-changed", "stutter-changed-meaning", "differs-from-paired-replay", "twin-copies-differ") or op == "copy":
         return "C16"
     if op in ("widen", "widenjoin", "narrow"):
         return "C05"
